@@ -55,7 +55,9 @@ func c13Task(r *core.Rng, tier string) core.TaskSpec {
 	t := core.TaskSpec{Kind: "writer", W: w}
 	if r.Chance(1, 3) {
 		t.Kind = "reader"
-		t.SourceKind = []string{"rs", "rsb"}[r.Intn(2)]
+		t.SourceKind = []string{"rs", "rsb", "rsx"}[r.Intn(3)]
+	} else if r.Chance(1, 2) {
+		t.SinkKind = "wx"
 	}
 	// one instance in five meets a fault of its own (error paths release buffers too);
 	// its solo reference runs with the same fault plan
@@ -197,7 +199,7 @@ func c13Reference(t *core.TaskSpec) (*c13Ref, error) {
 	defer pool.Uninstall()
 	if t.Kind == "writer" {
 		sink := &core.Sink{Fault: t.SinkFault}
-		wr := core.ExecWriter(t.W, sink)
+		wr := core.ExecWriterKind(t.W, sink, sinkKindOr(t.SinkKind))
 		ref := &c13Ref{apis: wr.APIs, bytes: sink.Data}
 		for _, a := range wr.APIs {
 			if a.Panic != "" {
@@ -276,7 +278,7 @@ func (p c13) exec(c *core.Case) (*c13Result, error) {
 	for i := range c.Pool.Prior {
 		t := &c.Pool.Prior[i]
 		if t.Kind == "writer" {
-			core.ExecWriter(t.W, &core.Sink{Fault: t.SinkFault})
+			core.ExecWriterKind(t.W, &core.Sink{Fault: t.SinkFault}, sinkKindOr(t.SinkKind))
 		} else {
 			src := core.NewSource(priorFiles[i], nil, t.SrcFault)
 			src.MaxCalls = 400000 + 400*len(priorFiles[i])
@@ -295,7 +297,7 @@ func (p c13) exec(c *core.Case) (*c13Result, error) {
 		t := &c.Tasks[i]
 		if t.Kind == "writer" {
 			sinks[i] = &core.Sink{Fault: t.SinkFault, Yield: func() { sched.Yield("sink") }}
-			fns = append(fns, func() { wres[i] = core.ExecWriter(t.W, sinks[i]) })
+			fns = append(fns, func() { wres[i] = core.ExecWriterKind(t.W, sinks[i], sinkKindOr(t.SinkKind)) })
 			expected += 40 * len(refs[i].bytes)
 		} else {
 			src := core.NewSource(refs[i].file, nil, t.SrcFault)
